@@ -45,8 +45,20 @@ def check_bootstrap(case):
     base = RecordingRegressor(yield_fit=case.get("yield_fit", 0), random_state=case.get("base_random_state"))
     facts["base_random_state"] = case.get("base_random_state")
     model = _mod.IntervalRegressor(estimator=base, n_estimators=ne, alpha=alpha, n_jobs=case["n_jobs"])
+    # the training table may be a DataFrame and the targets / weights pandas Series whose index is not 0..n-1 in order (a frame that
+    # was sorted and not re-indexed): a drawn row is a position, its features, target and weight stay together
+    cont = case.get("container", "array")
+    facts["container"] = cont
+    Xin, yin, win = X, y, w
+    if cont != "array":
+        import pandas
+        idx = None if cont == "frame" else np.arange(n)[::-1].copy()
+        if cont != "series-permuted-index":
+            Xin = pandas.DataFrame(X, columns=["c%d" % j for j in range(X.shape[1])], index=idx)
+        yin = pandas.Series(y, index=idx)
+        win = None if w is None else pandas.Series(w, index=idx)
     np.random.seed(case["seed"])
-    r = model.fit(X, y, w) if w is not None else model.fit(X, y)
+    r = model.fit(Xin, yin, win) if w is not None else model.fit(Xin, yin)
     require(r is model, "fit:not-self", "", facts)
     require(not hasattr(base, "seen_X_"), "base-estimator-fitted", "the estimator passed in was fitted in place", facts)
     ests = list(model.estimators_)
@@ -86,7 +98,7 @@ def check_bootstrap(case):
             require(not missing, "eligibility:row-never-drawn",
                     "rows %r never drawn in %d draws over n=%d (miss probability of a uniform sampler %.1e)" % (missing, draws, n, miss), facts)
     labels = ["n=1" if n == 1 else ("n<=4" if n <= 4 else "n>4"), "eligibility-applied" if elig else "eligibility-skipped",
-              "weights" if w is not None else "no-weights", "n_jobs=%s" % case["n_jobs"], "alpha<1" if alpha < 1 else "alpha>=1"]
+              "weights" if w is not None else "no-weights", "n_jobs=%s" % case["n_jobs"], "alpha<1" if alpha < 1 else "alpha>=1", "container:" + cont]
     return Outcome(labels, (n >= 2 and elig) or w is not None)
 
 
@@ -144,7 +156,8 @@ def _boot_cases(draw, tier="quick"):
     ne = draw(st.one_of(st.integers(1, 60), st.integers(40, 60)))
     return dict(n=n, d=draw(st.integers(1, 3)), alpha=alpha, n_estimators=ne, weights=draw(st.booleans()),
                 n_jobs=draw(st.sampled_from([None, None, 1, 2])), seed=draw(st.integers(0, 2**31 - 1)),
-                yield_fit=draw(st.sampled_from([0, 0, 1])), base_random_state=draw(st.sampled_from([None, None, 0, 7, 12345])))
+                yield_fit=draw(st.sampled_from([0, 0, 1])), base_random_state=draw(st.sampled_from([None, None, 0, 7, 12345])),
+                container=draw(st.sampled_from(["array", "array", "frame", "frame-permuted-index", "series-permuted-index"])))
 
 
 @st.composite
